@@ -7,6 +7,13 @@ Import ListNotations.
 Open Scope string_scope.
 Open Scope list_scope.
 
+(* ---- short spellings for the literals the harness prints *)
+Definition pp (s : string) : path := comps_of s.           (* "R/client/a.dat" *)
+Definition std_sb (uid : string) : sandboxes :=            (* the layout of harness/c11_impl.py *)
+  {| sb_client := "/R/client"; sb_task := "file://localhost/R/rsb/s1/p0/" ++ uid ++ "/";
+     sb_pilot := "file://localhost/R/rsb/s1/p0/"; sb_session := "file://localhost/R/rsb/s1";
+     sb_resource := "file://localhost/R/rsb"; sb_endpoint := "file://localhost/" |}.
+
 (* ---------------------------------------------------------------- equalities *)
 Definition err_eqb (a b : err) : bool :=
   match a, b with EValue, EValue | EOther, EOther => true | _, _ => false end.
@@ -92,12 +99,6 @@ Definition mk_dinfo (fs0 : fsys) (sb : sandboxes) (input : bool) (k : nat) (id :
   {| di_src := s; di_tgt := g; di_act := s_act d; di_eff := eff; di_input := input; di_task := k;
      di_idx := fst id |}.
 
-Fixpoint is_prefix (a b : path) : bool :=
-  match a, b with
-  | [], _ => true
-  | x :: a', y :: b' => String.eqb x y && is_prefix a' b'
-  | _, [] => false
-  end.
 Definition related (a b : path) : bool := is_prefix a b || is_prefix b a.
 
 Definition supported (input : bool) (a : action) : bool :=
@@ -115,12 +116,16 @@ Definition task_dinfos (fs0 : fsys) (kt : nat * task) : list dinfo :=
   map (mk_dinfo fs0 (t_sb t) true k) (enum 0 (t_in t)) ++ map (mk_dinfo fs0 (t_sb t) false k) (enum 0 (t_out t)).
 
 (* every path some directive, the tarball or the execution reads or writes *)
+(* the paths a payload step removes / creates *)
+Definition op_paths (o : xop) : list path := match o with XRm p => [p] | XMv p q => [p; q] end.
+
 Definition mentions (fs0 : fsys) (ts : list (nat * task)) : list path :=
   List.concat (map (fun kt =>
     List.concat (map (fun di => match di_src di with Some (p, _) => [p] | None => [] end ++ [di_eff di])
                 (task_dinfos fs0 kt))
     ++ map fst (abs_exec (snd kt))
-    ++ (if existsb (has_action [Tarball]) (t_in (snd kt)) then [sandbox_path (snd kt) ++ [tar_name (snd kt)]] else []))
+    ++ (if existsb (has_action [Tarball]) (t_in (snd kt)) then [sandbox_path (snd kt) ++ [tar_name (snd kt)]] else [])
+    ++ List.concat (map op_paths (t_ops (snd kt))))
     ts).
 
 Definition count_related (p : path) (m : list path) : nat := List.length (filter (related p) m).
@@ -184,7 +189,9 @@ Section Clauses.
   Variable tree : fsys.                (* final tree, observed *)
   Variable ts : list (nat * task).     (* expanded tasks, numbered *)
   Variable states : nat -> list tstate.   (* published states, observed *)
-  Let m := mentions fs0 ts.
+  Variable m : list path.              (* = mentions fs0 ts, computed once per row *)
+  Variable ads : list dinfo.           (* = the dinfos of all tasks, computed once per row *)
+  Definition dis_of (kt : nat * task) : list dinfo := filter (fun di => Nat.eqb (di_task di) (fst kt)) ads.
 
   Definition staged_ok (t : task) (di : dinfo) : bool :=
     if good fs0 m t di then
@@ -202,13 +209,13 @@ Section Clauses.
      directive's target holds the content of its source *)
   Definition ok_input_staged : bool :=
     forallb (fun kt => if passed_input (states (fst kt))
-                       then forallb (fun di => negb (di_input di) || staged_ok (snd kt) di) (task_dinfos fs0 kt)
+                       then forallb (fun di => negb (di_input di) || staged_ok (snd kt) di) (dis_of kt)
                        else true) ts.
 
   (* clause 2: the same for the output directives of a task that ends DONE *)
   Definition ok_output_staged : bool :=
     forallb (fun kt => if tstate_eqb (t_outcome (snd kt)) DONE && ends_in DONE (states (fst kt))
-                       then forallb (fun di => di_input di || staged_ok (snd kt) di) (task_dinfos fs0 kt)
+                       then forallb (fun di => di_input di || staged_ok (snd kt) di) (dis_of kt)
                        else true) ts.
 
   (* clause 3: output directives of a task that did not succeed are not carried
@@ -219,14 +226,14 @@ Section Clauses.
       if negb (tstate_eqb (t_outcome t) DONE) && negb (t_soe t)
       then forallb (fun di => di_input di ||
                       (if independent fs0 m t di then negb (exists_at (di_eff di) tree) else true))
-                   (task_dinfos fs0 kt)
+                   (dis_of kt)
       else true) ts.
 
   (* clause 4: a directive that cannot be carried out fails its task *)
   Definition ok_bad_fails : bool :=
     forallb (fun kt =>
       let t := snd kt in
-      let dis := task_dinfos fs0 kt in
+      let dis := dis_of kt in
       let bad_in := existsb (fun di => di_input di && surely_missing fs0 m di) dis in
       let bad_out := existsb (fun di => negb (di_input di) && surely_missing fs0 m di) dis in
       (if bad_in then negb (passed_input (states (fst kt))) && ends_in FAILED (states (fst kt)) else true)
@@ -238,7 +245,7 @@ Section Clauses.
   Definition ok_only_that_task : bool :=
     forallb (fun kt =>
       let t := snd kt in
-      if forallb (good fs0 m t) (task_dinfos fs0 kt)
+      if forallb (good fs0 m t) (dis_of kt)
       then ends_in (t_outcome t) (states (fst kt)) else true) ts.
 
   (* ---- overwrites: several transfer/copy directives (of one task, of several
@@ -260,7 +267,6 @@ Section Clauses.
     else (if client_side (di_act di) then 3 else 2).
   Definition wkey (di : dinfo) : nat := 4 * bulk (di_task di) + stage_rank di.
 
-  Definition all_dinfos : list dinfo := List.concat (map (task_dinfos fs0) ts).
   Definition task_of (k : nat) : option task :=
     match find (fun kt => Nat.eqb (fst kt) k) ts with Some kt => Some (snd kt) | None => None end.
 
@@ -271,13 +277,14 @@ Section Clauses.
         forallb (fun d' => negb (related s (di_eff d'))
                            && negb (action_eqb (di_act d') Move
                                     && match di_src d' with Some (s', _) => related s s' | None => false end))
-                all_dinfos
+                ads
         && forallb (fun kt => forallb (fun e => negb (related s (fst e))
                                                 || (Nat.eqb (fst kt) (di_task di) && negb (di_input di)
                                                     && path_eqb (fst e) s))
                                       (abs_exec (snd kt))) ts
         && negb (existsb (fun kt => existsb (has_action [Tarball]) (t_in (snd kt))
                                     && related s (sandbox_path (snd kt) ++ [tar_name (snd kt)])) ts)
+        && forallb (fun kt => forallb (fun o => forallb (fun p => negb (related s p)) (op_paths o)) (t_ops (snd kt))) ts
     | _, _ => false
     end.
 
@@ -300,14 +307,15 @@ Section Clauses.
     forallb (fun d' => negb (Nat.eqb (di_task d') (di_task di)) || Nat.leb (di_idx d') (di_idx di)) g.
 
   Definition judge_path (input_side : bool) (e : path) : bool :=
-    let w := filter (fun di => plain_writer di && path_eqb (di_eff di) e) all_dinfos in
+    let w := filter (fun di => plain_writer di && path_eqb (di_eff di) e) ads in
     match w with
     | [] => true
     | _ =>
         let g := filter (fun di => Nat.eqb (wkey di) (max_key w)) w in
         let judged :=
           (* every mention of something at, above or below e is one of these writes *)
-          Nat.eqb (count_related e m) (List.length w)
+          if negb (Nat.eqb (count_related e m) (List.length w)) then false else
+          true
           && match e with [] => false | _ => true end
           && negb (is_dir e fs0)
           && negb (existsb (fun x => match snd x with F _ => is_prefix (fst x) e && negb (path_eqb (fst x) e)
@@ -322,7 +330,84 @@ Section Clauses.
     end.
 
   Definition ok_last_writer (input_side : bool) : bool :=
-    forallb (fun di => negb (plain_writer di) || judge_path input_side (di_eff di)) all_dinfos.
+    forallb (fun di => negb (plain_writer di) || judge_path input_side (di_eff di)) ads.
+
+  (* ---- directives that can be carried out WHENEVER they run: the source is a
+     plain file nobody touches, the target a fresh file path at, above and below
+     which nobody else puts anything.  Directories above the target may be moved
+     away or removed by other directives or by the payload at any time: every
+     directive creates the missing parents of its target when it runs. *)
+  Definition same_di (a b : dinfo) : bool :=
+    Nat.eqb (di_task a) (di_task b) && Bool.eqb (di_input a) (di_input b) && Nat.eqb (di_idx a) (di_idx b).
+
+  Definition strict_prefix (a b : path) : bool := is_prefix a b && negb (path_eqb a b).
+
+  Definition no_file_above (e : path) : bool :=
+    negb (existsb (fun x => match snd x with F _ => strict_prefix (fst x) e | D => false end) fs0).
+
+  Definition all_ops : list xop := List.concat (map (fun kt => t_ops (snd kt)) ts).
+  Definition all_exec : list path := List.concat (map (fun kt => map fst (abs_exec (snd kt))) ts).
+  Definition all_tars : list path :=
+    List.concat (map (fun kt => if existsb (has_action [Tarball]) (t_in (snd kt))
+                                then [sandbox_path (snd kt) ++ [tar_name (snd kt)]] else []) ts).
+
+  Definition feasible_any_time (di : dinfo) : bool :=
+    if negb (plain_writer di) then false else
+    if negb (src_stable di) then false else
+    true
+    && match writer_content di with Some _ => true | None => false end
+    && match di_tgt di with Some (g, tr) => negb tr && negb (is_dir g fs0) && path_eqb g (di_eff di) | None => false end
+    && match di_eff di with [] => false | _ => true end
+    && negb (exists_at (di_eff di) fs0) && no_file_above (di_eff di)
+    && forallb (fun d' => same_di d' di
+                          || (negb (related (di_eff d') (di_eff di))
+                              && match di_src d' with Some (s', _) => negb (is_prefix (di_eff di) s') | None => true end))
+               ads
+    && forallb (fun p => negb (related p (di_eff di))) (all_exec ++ all_tars)
+    && forallb (fun o => match o with
+                         | XRm p => negb (related p (di_eff di)) || strict_prefix p (di_eff di)
+                         | XMv p q => (negb (related p (di_eff di)) || strict_prefix p (di_eff di))
+                                      && negb (related q (di_eff di))
+                         end) all_ops.
+
+  (* a MOVE of a directory that exists before the run and that nobody else
+     removes, to a fresh place nobody else touches *)
+  Definition movedir_ok (di : dinfo) : bool :=
+    if negb (action_eqb (di_act di) Move) then false else
+    match di_src di, di_tgt di with
+       | Some (s, _), Some _ =>
+           let x := di_eff di in
+           (if is_dir s fs0 then true
+            else if exists_at s fs0 then false
+            else (* ... or that was created in an earlier bulk by a staging into it *)
+              existsb (fun d' => if strict_prefix s (di_eff d') && Nat.ltb (bulk (di_task d')) (bulk (di_task di))
+                                 then writer_ran d' && feasible_any_time d' else false) ads)
+           && match s with [] => false | _ => true end
+           && match x with [] => false | _ => true end
+           && negb (exists_at x fs0) && no_file_above x && negb (related s x)
+           && forallb (fun kt => negb (is_prefix s (sandbox_path (snd kt)))
+                                 && negb (is_prefix s (url_comps (sb_client (t_sb (snd kt)))))) ts
+           && forallb (fun d' => same_di d' di
+                                 || (negb (related (di_eff d') x) && negb (is_prefix (di_eff d') s)
+                                     && match di_src d' with
+                                        | Some (s', _) => negb (related s' x)
+                                                          && negb (action_eqb (di_act d') Move && related s' s)
+                                        | None => true
+                                        end))
+                      ads
+           && forallb (fun p => negb (related p x) && negb (is_prefix p s)) (all_exec ++ all_tars)
+           && forallb (fun o => forallb (fun p => negb (related p x) && negb (is_prefix p s)) (op_paths o)) all_ops
+       | _, _ => false
+       end.
+
+  (* clause 5, with these: a task all of whose directives can be carried out
+     ends in the state its execution determined *)
+  Definition ok_feasible_task : bool :=
+    forallb (fun kt =>
+      let t := snd kt in
+      if forallb (fun di => if good fs0 m t di then true else if feasible_any_time di then true else movedir_ok di)
+                 (dis_of kt)
+      then ends_in (t_outcome t) (states (fst kt)) else true) ts.
 End Clauses.
 
 (* -------------------------------------------------------------------- the row *)
@@ -371,9 +456,11 @@ Definition c11_row (bs : list (list task_in)) (fs0 : fsys) (obs : list tobs) (tr
   let ts := numbered 0 (map expand_task (List.concat bs)) in
   let states k := match nth_error obs k with Some o => snd (fst o) | None => [] end in
   let bulk := bulk_of bs 0 in
+  let m := mentions fs0 ts in
+  let ads := List.concat (map (task_dinfos fs0) ts) in
   [ eqb_list tobs_eqb mo obs && fs_eqb mfs tree;
-    ok_input_staged fs0 tree ts states && ok_last_writer fs0 tree ts states bulk true;
-    ok_output_staged fs0 tree ts states && ok_last_writer fs0 tree ts states bulk false;
-    ok_failed_no_output fs0 tree ts;
-    ok_bad_fails fs0 ts states;
-    ok_only_that_task fs0 ts states ].
+    ok_input_staged fs0 tree ts states m ads && ok_last_writer fs0 tree ts states m ads bulk true;
+    ok_output_staged fs0 tree ts states m ads && ok_last_writer fs0 tree ts states m ads bulk false;
+    ok_failed_no_output fs0 tree ts m ads;
+    ok_bad_fails fs0 ts states m ads;
+    ok_only_that_task fs0 ts states m ads && ok_feasible_task fs0 ts states m ads bulk ].
